@@ -47,10 +47,11 @@ const (
 	fRST
 	fWedge // write wedge until the write timeout
 	fRefusedRedial
+	fSelectSilent // RST, and the next connection's Select.req is never answered: T6 ends it, the one after is healthy
 	nF
 )
 
-var faultNames = []string{"none", "fin", "rst", "wedge", "rst+refused-redials"}
+var faultNames = []string{"none", "fin", "rst", "wedge", "rst+refused-redials", "rst+select-unanswered"}
 
 type scenario struct {
 	Active      bool
@@ -99,6 +100,7 @@ type harness struct {
 	loopSince       time.Duration   // >=0: a reconnect loop must be running since then; -1: none expected
 	usedListeners   int
 	refuse          int
+	silentNext      bool
 	listenersAtLoop int
 }
 
@@ -115,7 +117,7 @@ func genScenario(t *core.Tape, faulty bool) scenario {
 		if faulty && t.Choose("scn", 2) == 1 {
 			f = 1 + t.Choose("scn", nF-1)
 		}
-		if f == fRefusedRedial && !sc.Active {
+		if (f == fRefusedRedial || f == fSelectSilent) && !sc.Active {
 			f = fRST
 		}
 		sc.Faults = append(sc.Faults, f)
@@ -172,6 +174,22 @@ func Build(config string) core.BuildFunc {
 		r.P.OnOpen = func(c *refhsms.Conn) {
 			if !sc.Active {
 				c.SelectReq()
+			}
+			if h.silentNext {
+				// this connection's Select.req stays unanswered; the library's T6 ends it
+				h.silentNext = false
+				r.P.AutoSelectRsp = -1
+				w.Fault("select-unanswered")
+				var watch func()
+				watch = func() {
+					if !c.Alive() || c.L.A.ClosedAt >= 0 || h.stop {
+						r.P.AutoSelectRsp = 0
+
+						return
+					}
+					w.After(5*time.Millisecond, "silent-conn-watch", watch)
+				}
+				watch()
 			}
 		}
 		r.P.OnFrame = h.onFrame
@@ -348,6 +366,10 @@ func (h *harness) armFault(p int) {
 		case fRefusedRedial:
 			w.Fault("rst")
 			h.refuse = 1 + w.T.Choose("peer", 3)
+			c.L.RST()
+		case fSelectSilent:
+			w.Fault("rst")
+			h.silentNext = true
 			c.L.RST()
 		}
 	})
